@@ -8,14 +8,18 @@ import json
 from lib import core, runner, sqlutil as U
 
 N = 2300          # rows per big table: 3 chunks of <= 1024 rows
+MANY = 20         # chunks of table m
 
 
 def setup(pk):
     key = " primary key" if pk else ""
     rows_a = ",".join(f"({i},{i % 7})" for i in range(N))
     rows_b = ",".join(f"({i},{i % 5})" for i in range(0, N, 2))
-    return [f"create table a(id int{key}, v int)", f"create table b(id int{key}, w int)", "create table c(id int, x int)",
-            f"insert into a values {rows_a}", f"insert into b values {rows_b}"]
+    # m: MANY single-row chunks (one INSERT each): more chunks than an operator's output channel holds (16), so that a
+    # producer on the late-polled side of a join runs until its channel is full before anything is consumed
+    many = [f"insert into m values ({i * 100}, {i + 1})" for i in range(MANY)]
+    return [f"create table a(id int{key}, v int)", f"create table b(id int{key}, w int)", "create table c(id int, x int)", "create table m(id int, x int)",
+            f"insert into a values {rows_a}", f"insert into b values {rows_b}"] + many
 
 
 STMTS = [
@@ -32,6 +36,9 @@ STMTS = [
     ("limit", "select id from a limit 3", False),
     ("distinct", "select distinct v from a", False),
     ("semi-join", "select id from a where id in (select id from b where w = 1)", False),
+    ("many-chunks-probe", "select a.id, m.x from a join m on a.id = m.id", False),
+    ("many-chunks-build", "select m.x, a.v from m join a on m.id = a.id", False),
+    ("many-chunks-left-filter", "select a.v, m.id from a left join m on a.id = m.id and m.x > 0 where a.id < 1000", False),
     ("insert-select", "insert into c select id, v from a where v < 3", True),
     ("insert-join", "insert into c select a.id, b.w from a join b on a.id = b.id", True),
     ("delete", "delete from a where v = 3", True),
@@ -54,7 +61,7 @@ def jobs(tier):
 def run(tier, seed):
     js = jobs(tier)
     chk = core.Check("C15", tier, "fault_enumeration",
-                     f"{len(STMTS)} statement shapes x {{memory, disk (pk tables: merge join / sort-agg eligible)}} over {N}-row tables (3 chunks); one fault-free run lists all "
+                     f"{len(STMTS)} statement shapes x {{memory, disk (pk tables: merge join / sort-agg eligible)}} over {N}-row tables (3 chunks) and a {MANY}-chunk table (more chunks than an operator's 16-slot output channel); one fault-free run lists all "
                      "(operator, item index, occurrence) positions including end-of-stream; one fault in {error, panic} injected at every position; "
                      "a case = (shape, engine, operator, k, occurrence, kind); oracle: Err, or Ok with the complete fault-free rows; failed DML leaves tables unchanged (also after reopen); "
                      "non-trivial = the fault was actually reached (fired)", seed)
